@@ -65,7 +65,7 @@ func (s *KeyBuilder) Compile(template string) (*CompiledKeyBuilder, *CompilerErr
 	for i := 0; i < len(runes); i++ {
 		r := runes[i]
 
-		if r == '\\' { // Escape
+		if r == '\\' && i+1 < len(runes) { // Escape (a trailing backslash is literal)
 			i++
 			sb.WriteRune(unescape(runes[i]))
 		} else if r == '{' {
